@@ -1574,6 +1574,7 @@ fn block_multiple_shape(h1: &[Req], h2: &[Req], r1: &RunOut, r2: &RunOut, bs: u6
 /// block-boundary cases of the input-chunking claim (BV.Props.C05Chunk), deterministic grid.
 /// `D` = exactly `m` input blocks (2^lgblock bytes each), optionally behind a completed FLUSH at an
 /// unaligned offset.  Histories:
+/// (FINISH stands for the tail request: FINISH in 64 cases, FLUSH — with an empty FINISH behind — in 16)
 ///   A  PROCESS D, FINISH -            B  PROCESS D[..k], PROCESS D[k..], FINISH -      (tail empty)
 ///   C  FINISH D                       E  PROCESS D[..k], FINISH D[k..]                 (tail not empty)
 ///   F / G  as A / C with the last byte of D removed (control: not on a boundary)
@@ -1590,17 +1591,20 @@ fn stage_boundary(args: &Args) -> Vec<TaskOut> {
     let seed = args.seed;
     // (quality, lgwin, catable, lgblock the encoder will choose)
     let grid: Vec<(u32, u32, bool, u32)> = vec![(2, 16, false, 14), (3, 18, false, 14), (2, 12, true, 14), (5, 16, false, 16), (9, 16, false, 16), (1, 10, true, 10), (0, 12, true, 12), (4, 14, false, 16)];
-    let n = grid.len() * 2 * 2 * 2;
+    // 64 cases with a FINISH tail (style x blocks x flush-prefix) + 16 with a FLUSH tail (one block, FINISH - behind it)
+    let n = grid.len() * 2 * 2 * 2 + grid.len() * 2;
     let grid = std::sync::Arc::new(grid);
     par_tasks(n, move |i| {
         let (q, w, cat, lgb) = grid[i % grid.len()];
         let j = i / grid.len();
-        let (style, m, pre) = (if j % 2 == 0 { 0u64 } else { 2u64 }, 1 + (j / 2) % 2, (j / 4) % 2 == 1);
+        let flush_tail = j >= 8;
+        let (style, m, pre) = if flush_tail { (if j % 2 == 0 { 0u64 } else { 2u64 }, 1usize, false) } else { (if j % 2 == 0 { 0u64 } else { 2u64 }, 1 + (j / 2) % 2, (j / 4) % 2 == 1) };
+        let tail_op = if flush_tail { OP_FLUSH } else { OP_FINISH };
         let mut rng = Rng::new(seed ^ 0xB0DA ^ ((i as u64) << 20));
         let mut rep = Report::default();
         let mut lines = vec![];
         if skip_task(i) { return TaskOut { lines, rep }; }
-        set_task(format!("replay: BV_ONLY={} bvh stream c05 --seed {} (boundary stage: q{} lgwin{} catable{} style{} blocks{} flush-prefix{})", i, seed, q, w, cat, style, m, pre));
+        set_task(format!("replay: BV_ONLY={} bvh stream c05 --seed {} (boundary stage: q{} lgwin{} catable{} style{} blocks{} flush-prefix{} tail-op{})", i, seed, q, w, cat, style, m, pre, tail_op));
         let bs = 1usize << lgb;
         let mut cfg = simple_cfg(q, w, cat, false, 0);
         cfg.hint_exact = true;
@@ -1609,14 +1613,15 @@ fn stage_boundary(args: &Args) -> Vec<TaskOut> {
         let k = *rng.pick(&[1usize, bs / 2, bs - 1, 777]) % d.len();
         let k = if k == 0 { 1 } else { k };
         let head = |v: &mut Vec<Req>| { if pre { v.push(Req { op: OP_FLUSH, data: prefix.clone() }); } };
-        let mk = |parts: &[(u8, &[u8])]| -> Vec<Req> { let mut v = vec![]; head(&mut v); for (op, x) in parts { v.push(Req { op: *op, data: x.to_vec() }); } v };
-        let ha = mk(&[(OP_PROCESS, &d), (OP_FINISH, &[])]);
-        let hb = mk(&[(OP_PROCESS, &d[..k]), (OP_PROCESS, &d[k..]), (OP_FINISH, &[])]);
-        let hc = mk(&[(OP_FINISH, &d)]);
-        let he = mk(&[(OP_PROCESS, &d[..k]), (OP_FINISH, &d[k..])]);
+        // with a FLUSH tail every history is closed by an empty FINISH behind it
+        let mk = |parts: &[(u8, &[u8])]| -> Vec<Req> { let mut v = vec![]; head(&mut v); for (op, x) in parts { v.push(Req { op: *op, data: x.to_vec() }); } if flush_tail { v.push(Req { op: OP_FINISH, data: vec![] }); } v };
+        let ha = mk(&[(OP_PROCESS, &d), (tail_op, &[])]);
+        let hb = mk(&[(OP_PROCESS, &d[..k]), (OP_PROCESS, &d[k..]), (tail_op, &[])]);
+        let hc = mk(&[(tail_op, &d)]);
+        let he = mk(&[(OP_PROCESS, &d[..k]), (tail_op, &d[k..])]);
         let d1 = &d[..d.len() - 1];
-        let hf = mk(&[(OP_PROCESS, d1), (OP_FINISH, &[])]);
-        let hg = mk(&[(OP_FINISH, d1)]);
+        let hf = mk(&[(OP_PROCESS, d1), (tail_op, &[])]);
+        let hg = mk(&[(tail_op, d1)]);
         rep.evaluations += 1;
         let run = |h: &Vec<Req>, rng: &mut Rng, ample: bool| drive(&cfg, h, &if ample { OutSched::ample() } else { gen_sched(rng) }, true);
         let ra = run(&ha, &mut rng, true);
@@ -1631,7 +1636,7 @@ fn stage_boundary(args: &Args) -> Vec<TaskOut> {
         rep.nontrivial += 1;
         let s = snap(&ra.sess.enc);
         if s.b as u32 != lgb { rep.violation("stream:c05:boundary-lgblock", &format!("the encoder chose lgblock {} where the stage expects {}", s.b, lgb), case_json(&cfg, &ra.sess, "boundary stage")); return TaskOut { lines, rep }; }
-        rep.count("boundary.cases");
+        rep.count("boundary.cases"); rep.count(if flush_tail { "boundary.cases.flush_tail" } else { "boundary.cases.finish_tail" });
         for (x, y, nx, ny) in [(&ra, &rb, "A", "B"), (&rc, &re, "C", "E"), (&rf, &rg, "F", "G")] {
             rep.count("boundary.claimed_pairs");
             if x.sess.delivered != y.sess.delivered {
@@ -1641,11 +1646,18 @@ fn stage_boundary(args: &Args) -> Vec<TaskOut> {
         }
         // the requests of A and C at the boundary, as the model predicts them
         let evs = |r: &RunOut| -> Vec<(u64, u64, bool, bool)> { r.sess.recs.iter().flat_map(|c| c.events.iter().filter(|e| e.site == 0).map(|e| (e.lp_before, e.input_pos, e.is_last, e.force_flush))).collect() };
-        let (ea, ec) = (evs(&ra), evs(&rc));
+        let (mut ea, mut ec) = (evs(&ra), evs(&rc));
         let end = (prefix.len() + d.len()) as u64;
+        if flush_tail {
+            // the closing `FINISH -` issues the same empty is_last request in both histories
+            let last_ok = |l: &Vec<(u64, u64, bool, bool)>| l.last() == Some(&(end, end, true, false));
+            if !(last_ok(&ea) && last_ok(&ec)) { rep.violation("stream:c05:boundary-reqs", &format!("the closing FINISH of a FLUSH-tail boundary history did not issue (end, end, is_last): {:?} / {:?}", ea, ec), case_json(&cfg, &ra.sess, "boundary stage")); return TaskOut { lines, rep }; }
+            ea.pop(); ec.pop();
+        }
+        let flagged = (!flush_tail, flush_tail); // (is_last, force_flush) of the tail request
         // the catable prelude moves the first two bytes out of the first request
-        let ok_a = ea.len() >= 2 && ea[ea.len() - 1] == (end, end, true, false) && { let x = ea[ea.len() - 2]; x.1 == end && end - x.0 <= bs as u64 && end - x.0 + 2 >= bs as u64 && !x.2 && !x.3 };
-        let ok_c = ec.len() >= 1 && { let x = ec[ec.len() - 1]; x.1 == end && end - x.0 <= bs as u64 && end - x.0 + 2 >= bs as u64 && x.2 && !x.3 } && ec.len() + 1 == ea.len();
+        let ok_a = ea.len() >= 2 && ea[ea.len() - 1] == (end, end, flagged.0, flagged.1) && { let x = ea[ea.len() - 2]; x.1 == end && end - x.0 <= bs as u64 && end - x.0 + 2 >= bs as u64 && !x.2 && !x.3 };
+        let ok_c = ec.len() >= 1 && { let x = ec[ec.len() - 1]; x.1 == end && end - x.0 <= bs as u64 && end - x.0 + 2 >= bs as u64 && x.2 == flagged.0 && x.3 == flagged.1 } && ec.len() + 1 == ea.len();
         if ok_a && ok_c { rep.count("boundary.reqs_as_model"); } else {
             rep.violation("stream:c05:boundary-reqs", &format!("payload-encoder requests at a block boundary are not what the model predicts: PROCESS D, FINISH - issued {:?}; FINISH D issued {:?} (block {}, end {})", ea, ec, bs, end), case_json(&cfg, &ra.sess, "boundary stage"));
         }
@@ -1654,7 +1666,7 @@ fn stage_boundary(args: &Args) -> Vec<TaskOut> {
             if ok_a && ok_c && block_multiple_shape(&ha, &hc, &ra, &rc, bs as u64) {
                 // the tree deviates from C05 here (known finding): the chunking clause of the property is
                 // violated exactly where the model's theorem has its proviso
-                rep.violation("stream:c05:in-chunking:block-multiple", &format!("bytes differ between `PROCESS D, FINISH -` and `FINISH D` with D = {} input block(s) of {} bytes (quality {}, flush prefix {}): {} vs {} bytes; request lists as the model predicts", m, bs, q, pre, ra.sess.delivered.len(), rc.sess.delivered.len()), case_json(&cfg, &rc.sess, &format!("other history: {}", ra.sess.history_line().chars().take(200).collect::<String>())));
+                rep.violation("stream:c05:in-chunking:block-multiple", &format!("bytes differ between `PROCESS D, {0} -` and `{0} D` with D = {1} input block(s) of {2} bytes (quality {3}, flush prefix {4}): {5} vs {6} bytes; request lists as the model predicts", if flush_tail { "FLUSH" } else { "FINISH" }, m, bs, q, pre, ra.sess.delivered.len(), rc.sess.delivered.len()), case_json(&cfg, &rc.sess, &format!("other history: {}", ra.sess.history_line().chars().take(200).collect::<String>())));
             } else {
                 rep.violation("stream:c05:in-chunking", &format!("bytes differ between `PROCESS D, FINISH -` and `FINISH D` at a block boundary but the request lists are not the predicted shapes: {:?} vs {:?}", ea, ec), case_json(&cfg, &rc.sess, "boundary stage"));
             }
